@@ -111,6 +111,12 @@ func ResourcesUniverse(level string) *Universe {
 	an := collection("annotated", "annotatedId", P(Int64), ann, false)
 	an.ReadOnly = []string{"id", "inner/o", "items/*/o", "byKey/*/o"}
 	an.CreateOnly = []string{"created", "inner/a"}
+	// only create-only / only read-only annotations (the generated bindings choose their exclusion
+	// specs per method from which of the two lists is non-empty)
+	aco := collection("annotatedCO", "annotatedCOId", P(Int64), ann, false)
+	aco.CreateOnly = []string{"created", "inner/a"}
+	aro := collection("annotatedRO", "annotatedROId", P(Int64), ann, false)
+	aro.ReadOnly = []string{"id", "items/*/o"}
 	return u
 }
 
